@@ -278,6 +278,7 @@ let apply_user_ops (ops : op list) (fds : (int * fdent) list) =
   List.fold_left (fun fds o -> match o with
       | OS (SUserClose fd) -> List.filter (fun (k, _) -> k <> i fd) fds
       | OS (SUserCloexec (fd, on)) -> List.map (fun (k, d) -> if k = i fd then (k, fd_set_cloexec on d) else (k, d)) fds
+      | OS (SUserOpen (fd, id, cx)) -> (i fd, { f_obj = OExt (id, ARW); f_cloexec = cx; f_nonblock = false }) :: List.filter (fun (k, _) -> k <> i fd) fds
       | _ -> fds) fds ops
 
 let mon_c05 (r : runres) (sc : scenario) =
@@ -817,6 +818,15 @@ let mon_c09 (r : runres) =
                              | _ -> ())
                           | None -> () in
                       chk ev_out 1; chk ev_err 2;
+                      (if m land ev_in <> 0 && not hi.pclosed.(0) then
+                         match parent_end ws st.s_before main c 0 with
+                         | Some fd ->
+                           (match List.assoc_opt fd (fds_of st.s_before main) with
+                            | Some { f_obj = OPipeW q; _ } ->
+                              if not (has_reader q st.s_before) && (List.nth evs k land ev_in = 0 || t1 <> t0) then
+                                fail "C09/missed-event/in-closed" (Printf.sprintf "the child of source %d closed its stdin but no input event is reported" k)
+                            | _ -> ())
+                         | None -> ());
                       if m land ev_exit <> 0 && ended st.s_before c && hi.status = None && h_exit_ok ws c
                          && (List.nth evs k land ev_exit = 0 || t1 <> t0) then
                         fail "C09/missed-event/exit" (Printf.sprintf "child of source %d had exited but no exit event" k)
@@ -854,6 +864,21 @@ let mon_c02 (r : runres) =
           Hashtbl.replace next_off (h, src) (off + len)
         | RLit _ -> fail (tag ^ "-foreign") "literal bytes delivered on a data stream") rs in
   let tbl = walk r (fun tbl _ st _evs ->
+      (* each child sees end-of-file once its stdin was closed by the parent: nobody else may hold the write end *)
+      Hashtbl.iter (fun _ (hi : hinfo) ->
+          if hi.started && hi.child > 0 && not hi.fork_mode && hi.pclosed.(0) then
+            match hi.start_after with
+            | Some ws ->
+              (match image_obj ws hi.child 0 with
+               | Some (OPipeR q) when (proc st.s_after hi.child).pr_state = Running ->
+                 List.iter (fun (pid, (p : proc)) ->
+                     if i pid <> hi.child && p.pr_state = Running && (i pid = main || i p.pr_parent = main)
+                        && List.exists (fun (_, (d : fdent)) -> d.f_obj = OPipeW q) (fds_list p) then
+                       fail (Printf.sprintf "C02/no-eof/write-end-held-by-%s" (if i pid = main then "parent" else "sibling"))
+                         (Printf.sprintf "stdin of child %d was closed but process %d still holds its write end" hi.child (i pid)))
+                   (procs_list st.s_after)
+               | _ -> ())
+            | None -> ()) tbl;
       match st.s_op, st.s_res with
       | OS (SRead (h, s, true, n)), RRead (rr, rs) when i s = 1 || i s = 2 ->
         (match Hashtbl.find_opt tbl (i h) with
@@ -992,7 +1017,23 @@ let mon_c14 (r : runres) (flags : string list) =
             | LInChild -> if rr <> einval then fail "C14/result-class/in-child/close" (Printf.sprintf "close in the child returned %d" rr)
             | LNone -> ())
       | OS (SDestroy h), RUnit -> Hashtbl.remove st_of (i h)
-      | _ -> ()) r.r_steps
+      | _ -> ()) r.r_steps;
+  (* streams closed by the parent, consumed to their end, or given as start-up input stay closed *)
+  ignore (walk r (fun tbl _ st _ ->
+      match st.s_op, st.s_res with
+      | OS (SRead (h, s, true, _)), RRead (rr, _) when i s = 1 || i s = 2 ->
+        (match Hashtbl.find_opt tbl (i h) with
+         | Some hi when hi.started && not hi.fork_mode && (hi.pclosed.(i s) || hi.epiped.(i s)) ->
+           if i rr <> epipe then fail "C14/result-class/closed-stream/read" (Printf.sprintf "read of a closed stream returned %d" (i rr))
+         | _ -> ())
+      | OS (SWrite (h, true, _)), RInt rr ->
+        (match Hashtbl.find_opt tbl (i h) with
+         | Some hi when hi.started && not hi.fork_mode
+                        && (hi.pclosed.(0) || (match hi.opts with Some o -> o.o_input_data | None -> false)
+                            || (match hi.eff with Some e -> i e.o_in.rd_type <> 1 | None -> false)) ->
+           if i rr <> epipe then fail "C14/result-class/closed-stream/write" (Printf.sprintf "write to a closed or non-piped stdin returned %d" (i rr))
+         | _ -> ())
+      | _ -> ()))
 
 (* C15: destroy applies the stop policy *)
 let mon_c15 (r : runres) (flags : string list) =
@@ -1063,6 +1104,11 @@ let mon_c16 (r : runres) =
         (match Hashtbl.find_opt tbl (i h) with
          | Some hi when hi.started && not hi.fork_mode ->
            let rr = i rr in
+           (match hi.deadline_abs with
+            | Some d when no_latency r ->
+              let t0 = i st.s_before.w_time and t1 = i st.s_after.w_time in
+              if t1 > max t0 d then fail "C16/deadline-overrun" (Printf.sprintf "drain returned at %d, the deadline was %d" t1 d)
+            | _ -> ());
            let calls = List.map (fun (((w, s), n), rs) -> (i w, i s, i n, rs)) calls in
            let so = ref (List.map i souts) and se = ref (List.map i serrs) in
            let pop which = let l = if which = 0 then so else se in match !l with [] -> 0 | v :: t -> l := t; v in
@@ -1082,6 +1128,9 @@ let mon_c16 (r : runres) =
                 end);
                let v = pop w in
                if v <> 0 then stopped := Some v) calls;
+           if !stopped = None && rr < 0 && rr <> etimedout && faults_of r = [] then
+             fail "C16/result/unexpected-error" (Printf.sprintf "drain returned %d although no sink failed, no deadline expired and no call failed" rr);
+           if rr = etimedout && hi.deadline_abs = None then fail "C16/result/timeout-without-deadline" "drain returned the timeout error but the process has no deadline";
            (match !stopped with
             | Some v -> if rr <> v then fail "C16/result/sink-value" (Printf.sprintf "sink returned %d, drain returned %d" v rr)
             | None ->
@@ -1097,6 +1146,10 @@ let mon_c16 (r : runres) =
 (* C17: nonblocking never blocks; start-up input never blocks start *)
 let mon_c17 (r : runres) =
   let main = main_of r in
+  (match r.r_pending, r.r_final with
+   | Some (OStart (_, _, o, _, _)), FHang when not o.o_fork ->
+     fail (if o.o_input_data then "C17/start-blocked-on-input" else "C17/start-hangs") "start never returns (blocked for ever)"
+   | _ -> ());
   ignore (walk r (fun tbl _ st evs ->
       match st.s_op, st.s_res with
       | OS (SRead (h, _, _, _)), RRead (rr, _) | OS (SWrite (h, _, _)), RInt rr ->
@@ -1223,6 +1276,7 @@ let monitor (prop : string) (r : runres) (sc : scenario) (flags : string list) :
    | "C17" -> mon_c17 r
    | "C20" -> mon_c20 r; mon_c01 r; mon_c02 r
    | _ -> ());
+  if List.mem "heap-overflow" flags then fail (prop ^ "/oob-store") "the library wrote past the end of a heap block it allocated";
   List.iter (fun f -> if List.mem f [ "read-content-mismatch"; "sink-content-mismatch" ] then
                 fail (prop ^ "/content-mismatch") "bytes delivered differ from the bytes written at those offsets") flags;
   List.rev !fails
